@@ -15,7 +15,7 @@ type sC09 struct {
 
 type nKeyStr string
 
-const nShapes = 52
+const nShapes = 54
 
 type nDigestC09 [2]byte
 
@@ -131,8 +131,12 @@ func shapeC09(k int) (interface{}, string) {
 	case 50:
 		var i interface{} = vInt()
 		return &i, "*interface{}"
-	default:
+	case 51:
 		return [2]interface{}{nil, vString(1)}, "[2]interface{}"
+	case 52: // an incomparable element before ones that may match
+		return []interface{}{map[string]interface{}{"k": 1}, vString(1), vInt()}, "[]interface{map,string,int}"
+	default:
+		return []interface{}{[]int{1}, nil, vString(1)}, "[]interface{[]int,nil,string}"
 	}
 }
 
